@@ -63,8 +63,11 @@ def render(fmt, recs, rng):
     lines = []
     mags = []
     if fmt == 'zmap':
+        # every third file size writes the real numbers the way Matlab / numpy.savetxt do (17 significant digits, exponent
+        # notation): the same doubles, spelled out in full
+        ff = (lambda v: '%.16e' % v) if len(recs) % 3 == 2 else repr
         for r in recs:
-            lines.append('%r %r %d %d %d %r %r %d %d %d' % (r['lon'], r['lat'], r['y'], r['mo'], r['d'], r['mag'], r['dep'], r['h'], r['mi'], r['s']))
+            lines.append('%s %s %d %d %d %s %s %d %d %d' % (ff(r['lon']), ff(r['lat']), r['y'], r['mo'], r['d'], ff(r['mag']), ff(r['dep']), r['h'], r['mi'], r['s']))
             mags.append(r['mag'])
     elif fmt == 'jma-csv':
         lines.append('timestamp;longitude;latitude;depth;magnitude')
